@@ -25,6 +25,26 @@ def sweep(v, kind, tier, seed, wd, nshards=16, corpus=None, tag=""):
             raise vlib.Infra("drv_fault shard %d rc=%d %s" % (sh, rc, out[-600:]))
         probes += int(m.group(1))
         files.append(f)
+    # pinned (stream, fault) pairs of repaired findings: replayed in every tier, whatever the seed samples
+    pinned = os.path.join(vlib.ROOT, "checks", "pinned_faults.json")
+    if not tag and os.path.exists(pinned):
+        f = os.path.join(wd, "fault_%s_pinned.ndjson" % kind)
+        open(f, "w").close()
+        for p in json.load(open(pinned))["faults"]:
+            env = dict(vlib.SAN_ENV) if kind == "asan" else {}
+            env["VERIF_RECORDS"] = f
+            rc, out = vlib.run("%s one %s '%s' > /dev/null" % (exe, os.path.join(vlib.ROOT, p["stream"]), p["fault"]), timeout=600, env=env)
+            if rc != 0:
+                # `one` runs the probe in the driver's own process: an abnormal end (sanitizer report, signal, hang) is the observation
+                m = re.search(r"(\S+: runtime error: [^\n]*|ERROR: AddressSanitizer[^\n]*)", out)
+                fr = re.search(r"#0 \S+ in (draco::[^\n]*)", out)
+                rec = {"e": "Abnormal", "oom": False, "report": ((m.group(1) if m else out[-400:]) + (" @ " + fr.group(1) if fr else "")).replace("\n", " "),
+                       "stream": os.path.basename(p["stream"]), "fault": p["fault"], "len": os.path.getsize(os.path.join(vlib.ROOT, p["stream"])),
+                       "timeout": rc == 124, "signal": -rc if rc < 0 else 0, "exit": rc if rc > 0 else 0}
+                with open(f, "a") as o:
+                    o.write(json.dumps(rec) + "\n")
+            probes += 1
+        files.append(f)
     merged = os.path.join(wd, "fault_%s%s.ndjson" % (kind, tag))
     with open(merged, "w") as o:
         for f in files:
